@@ -131,10 +131,17 @@ func cmdMutant(args []string) int {
 	if !ok {
 		return emit()
 	}
-	rep, _, err := runProperty(*prop, "quick", *repo, ov, "")
+	props := []string{*prop}
+	if *prop == "all" {
+		props = nil
+		for k := range rules.Registry {
+			props = append(props, k)
+		}
+		sort.Strings(props)
+	}
+	prog, err := loadFor(props, *repo, ov, "")
 	if err != nil {
-		// a mutant that no longer type-checks or that makes the analyser give up is "reported" in the sense
-		// that the check does not pass (exit 2: no verdict)
+		// a mutant that no longer type-checks makes every check fail (exit 2: no verdict)
 		res.Err = err.Error()
 		res.Detected = true
 		return emit()
@@ -148,15 +155,23 @@ func cmdMutant(args []string) int {
 			}
 		}
 	}
-	rep.Finish(core.FinishOpts{VerifDir: verifDir(), Quiet: true, NoWrite: true, Known: known})
-	for _, k := range rep.ViolatedKeys() {
-		if !kn[k] {
-			res.Keys = append(res.Keys, k)
+	for _, pr := range props {
+		rep, err := runRules(prog, pr, "quick")
+		if err != nil {
+			res.Err = err.Error()
+			res.Detected = true
+			continue
+		}
+		rep.Finish(core.FinishOpts{VerifDir: verifDir(), Quiet: true, NoWrite: true, Known: known})
+		for _, k := range rep.ViolatedKeys() {
+			if !kn[k] {
+				res.Keys = append(res.Keys, k)
+			}
 		}
 	}
-	res.Detected = len(res.Keys) > 0
-	if len(res.Keys) > 6 {
-		res.Keys = append(res.Keys[:6], fmt.Sprintf("... %d more", len(res.Keys)-6))
+	res.Detected = res.Detected || len(res.Keys) > 0
+	if len(res.Keys) > 12 {
+		res.Keys = append(res.Keys[:12], fmt.Sprintf("... %d more", len(res.Keys)-12))
 	}
 	return emit()
 }
